@@ -110,6 +110,34 @@ CLAIMED = {
         note="Trusted: TLC, pools.py byte-order table, encoding/json token scanner.",
         technique="TLA+ spec (Codec.tla KeyOrder) model-checked with TLC; behaviours replayed on the real Marshal",
         design="6/C19"),
+    "C14": dict(
+        text="Lifecycle.tla models the API as a state machine over the objects a caller shares between calls (two roots of "
+             "different drafts, one remote document handed out by a memoising Loader); TLC checks, for all call histories, that "
+             "every result is a function of the call's inputs alone (Deterministic) and that no caller-owned object is written "
+             "(Pure); the same histories are executed on the real code with deep reflective snapshots around every call. The "
+             "evaluator and resolver universes are additionally replayed with snapshots, repeated calls, and in several fresh "
+             "processes whose verdict/bytes digests must coincide (map iteration order, hash seeds).",
+        note="Trusted: TLC, the harness's reflective deep fingerprint. Process-level nondeterminism is sampled (2/4 processes), not enumerated.",
+        technique="TLA+ lifecycle state machine model-checked with TLC; histories replayed on the real code with deep snapshots; cross-process digests",
+        design="6/C14"),
+    "C15": dict(
+        text="Defaults.tla transcribes the applyDefaults walk and states the L0 laws (idempotent, preserving, never fills a required "
+             "property, every insertion is the declared default recursively completed or a container holding one); TLC checks the "
+             "laws for all schemas x instances of the universe and predicts the resulting instance and whether every default "
+             "validates against its declaring subschema; both predictions are replayed on ApplyDefaults (twice: history) and "
+             "Resolve(ValidateDefaults).",
+        note="Trusted: TLC, encoding/json. Schemas with $dynamicRef are outside (documented limitation of ValidateDefaults).",
+        technique="TLA+ spec (Defaults.tla + Eval) model-checked with TLC; behaviours replayed on the real code",
+        design="6/C15"),
+    "C20": dict(
+        text="Heap.tla gives Schema nodes identity; Clone is a walk over the table of subschema-bearing fields. TLC checks equal "
+             "shape, disjoint node ids and mutation independence in both directions for trees with subschemas under every field "
+             "(and pairs of fields, wide trees, empty containers); each tree is built as a Go literal and CloneSchemas is checked "
+             "with an independent reflective walker, marshaled bytes, Resolve of a common parent and scribbling over every field, "
+             "slice element and map entry of one side.",
+        note="Trusted: TLC, harness literal builder and reflective walker (finds *Schema, []*Schema, map[string]*Schema fields by type).",
+        technique="TLA+ heap model of CloneSchemas model-checked with TLC; behaviours replayed on the real code",
+        design="6/C20"),
 }
 
 NOT_YET = "check not built yet in this round (work in progress; see DESIGN.md section 11)"
